@@ -18,7 +18,10 @@ RULE = ("Hypothesis draws an m x n operator with m<n, m=n, m>n (1..12; real/comp
         "pinv(A) @ b satisfies M^H (M x - b) = 0, x is orthogonal to null(M), and x equals numpy.linalg.pinv(M) @ b. "
         "Non-trivial: non-square, k < min(m,n), complex, or the CG path. Further kinds: Hermitian indefinite operators "
         "declared SelfAdjoint and PD operators declared PSD (singular values |lambda|), lazy Products of 2-3 full-rank dense "
-        "factors in every orientation pattern (wide@tall, tall@square, square@wide, tall@tall, ...) and Sums.")
+        "factors in every orientation pattern (wide@tall, tall@square, square@wide, tall@tall, ...) and Sums."
+        " Further: c * Stiefel / Unitary-declared Q with |c| != 1 (pinv), singular values spread over 1e3 / 5e3 at"
+        " Lanczos' default tolerance, columns graded over four decades (pinv), the same Auto object (or the default)"
+        " first used on a 2 x 500001 operator in the large case.")
 ASSUMPTIONS = [
     "full-rank operators with cond <= ~1e2; tolerances 1e-7 |M| (svd) and 1e-6 |x| cond (pinv; 10 tol cond^2 for CG)",
     "bulk payloads from numpy.default_rng(seed) with the seed a Hypothesis draw",
@@ -245,7 +248,14 @@ def check(case, out):
         Uf, sf, Vhf = np.linalg.svd(M)
         best = lambda j: (Uf[:, :j] * sf[:j]) @ Vhf[:j]  # noqa: E731
         krylov = case["alg"] == "Lanczos"
-        if kk == r:
+        if krylov and case["kind"] == "dense_spread" and k <= kk < r or (krylov and case["kind"] == "dense_spread" and kk < k and sf[kk] <= 1e-2 * sf[0]):
+            # (at Lanczos' default tolerance the iteration may stop before the smallest of singular values spread over
+            # 5e3 are resolved: the triplets that are returned are then judged against the best rank-kk approximation)
+            if kk < k:
+                out.inconclusive += 1
+                out.label("svd:early_termination")
+            target, what = best(kk), f"the best rank-{kk} approximation"
+        elif kk == r:
             target, what = M, "M"
         elif kk == k:
             if sf[k - 1] - sf[k] < 0.05 * sf[0]:  # (near-)equal singular values at the cut: the best rank-k approximation is not unique
@@ -256,10 +266,15 @@ def check(case, out):
         else:
             out.fail("factors", site, "count", f"{kk} triplets returned for k={k}, min(m,n)={r}")
             return
-        if krylov and kk != k and case["kind"] in ("dense", "herm", "psd_ann", "prod", "sum", "dense_spread"):  # structural rules may return their full exact decomposition
+        if krylov and kk != k and case["kind"] in ("dense", "herm", "psd_ann", "prod", "sum"):  # structural rules may return their full exact decomposition
             out.fail("factors", site, "count", f"Krylov algorithm returned {kk} triplets for k={k}")
             return
         err = np.abs(rec - target).max()
+        if krylov and case["kind"] == "dense_spread" and kk < k:
+            # stopped by its tolerance: the unresolved end of the spectrum is within sqrt(tol) |A| (the Gram matrix squares it)
+            if err > 1e-3 * scale:
+                out.fail("reconstruct", site, "value", f"|U S V^H - {what}| = {err:.3e} after early termination")
+            return
         if err > 1e-7 * scale * (100 if krylov else 1):
             out.fail("reconstruct", site, "value", f"|U S V^H - {what}| = {err:.3e}")
         return
